@@ -58,6 +58,8 @@ type Beh struct {
 	Lazy   bool               `json:"lazy"`
 	Meta   map[string]Comp    `json:"meta"`
 	OpList []OpT              `json:"oplist"`
+	HoldD  int                `json:"holddepth"`
+	RecD   int                `json:"recdepth"`
 	Leak   *Comp              `json:"leak"`
 	At     string             `json:"at"`
 }
@@ -159,6 +161,9 @@ func runIdeal(env *common.Env, rep *common.Report, cases map[string]*Case, order
 			}
 			if r.Meta != nil {
 				meta, opList = r.Meta, r.OpList
+				if r.HoldD != holdDepth || r.RecD != recDepth {
+					common.Inconclusive("property=C08 the specification's HoldDepth/RecDepth (%d/%d) differ from the templates' (%d/%d)", r.HoldD, r.RecD, holdDepth, recDepth)
+				}
 				return
 			}
 			if r.Script == nil {
@@ -387,7 +392,7 @@ func main() {
 	cases := map[string]*Case{}
 	var order []string
 	var stats []tlcStats
-	nops := 27 // size of the alphabet; checked against the Meta record below
+	nops := 29 // size of the alphabet; checked against the Meta record below
 	samples := []smp{{env.Pick(180, 1000), 2, 2}, {env.Pick(30, 200), 3, 2}, {env.Pick(45, 400), 2, 3}, {env.Pick(0, 20), 3, 3}}
 	mcs := map[string]string{"MCS.tla": sampleModule(rng, samples, nops)}
 	stats = append(stats, runIdeal(env, rep, cases, &order, map[bool]string{false: "ideal.cfg", true: "ideal_thorough.cfg"}[env.Thorough()], mcs, "MCS"))
@@ -499,7 +504,7 @@ func replayAll(env *common.Env, rep *common.Report, cases map[string]*Case, orde
 	var alone, pool []string
 	for _, k := range rest {
 		c := cases[k]
-		solo := c.hasOp("ReplLine")
+		solo := c.hasOp("ReplLine") || c.hasOp("HoldDeep")
 		for comp := range c.components() {
 			if _, ok := leaky[comp]; ok {
 				solo = true
